@@ -72,21 +72,31 @@ class TmpCache:
         shutil.rmtree(self.dir, ignore_errors=True)
 
 
-def jit_forms(forms, cache_dir, options=None, **kw):
-    """compile_forms -> (compiled forms, module)."""
+def _jit(fn, objs, cache_dir, options, kw):
+    """Shared cache with a generous wait; a stale lock (killed earlier run) or an overloaded machine must not
+    become a false alarm: on TimeoutError compile in a private sub-directory instead."""
+    import os
     o = dict(options or {})
-    res, mod, code = ffcx.codegeneration.jit.compile_forms(
-        forms, options=o, cache_dir=cache_dir, **kw
-    )
-    return res, mod, code
+    kw = dict(kw)
+    kw.setdefault("timeout", 180)
+    try:
+        return fn(list(objs), options=o, cache_dir=cache_dir, **kw)
+    except TimeoutError:
+        private = Path(cache_dir) / f"private_{os.getpid()}"
+        private.mkdir(parents=True, exist_ok=True)
+        try:
+            return fn(list(objs), options=dict(options or {}), cache_dir=private, **kw)
+        finally:
+            pass
+
+
+def jit_forms(forms, cache_dir, options=None, **kw):
+    """compile_forms -> (compiled forms, module, code)."""
+    return _jit(ffcx.codegeneration.jit.compile_forms, forms, cache_dir, options, kw)
 
 
 def jit_expressions(exprs, cache_dir, options=None, **kw):
-    o = dict(options or {})
-    res, mod, code = ffcx.codegeneration.jit.compile_expressions(
-        exprs, options=o, cache_dir=cache_dir, **kw
-    )
-    return res, mod, code
+    return _jit(ffcx.codegeneration.jit.compile_expressions, exprs, cache_dir, options, kw)
 
 
 _NP = {"float64": np.float64, "float32": np.float32, "complex128": np.complex128, "complex64": np.complex64}
